@@ -356,7 +356,9 @@ def run(ctx):
     ctx.cov["rule"] = ("inner: operands built word by word (boundary lattice incl. carries across all-ones words, spare high zero words, "
                        "unequal lengths, fixnum limits, factor pairs of the fixnum limits, near-multiples, reduced fractions with halves) fed to "
                        "40 C functions / VM opcodes and to the extracted model, compared word for word; outer: corpus, then operand tuples "
-                       "over the boundary lattice x every operation through the Scheme API vs the extracted Z/Q spec; a case is "
+                       "over the boundary lattice x every operation through the Scheme API vs the extracted Z/Q spec; round 2: every pair of exact types "
+                       "{fixnum, bignum, ratio, complex} x + - * / = vs the Gaussian-rational spec, rationals in radix 2..36, binary64 bit patterns "
+                       "(every sampled power of two and its two neighbours, fixnum/bignum boundary, subnormals) through exact / inexact; a case is "
                        "non-trivial when at least one operand is a bignum (|x| >= 2^62) or a ratio, distinct by (op, operands)")
     d = ctx.build("default")
     # (G) constants of the source tree -> coq/Gen/C04_Consts.v (checked against the models' literals by
@@ -418,8 +420,8 @@ def run(ctx):
             txt = "".join(c.upper() if rng.random() < 0.5 else c for c in txt)
         cases.append(("radix:string->number", '(string->number "%s" %d)' % (txt, r), "spec1 7 %s" % zhex(z), ("s2n", r, txt), abs(z) > FIXMAX))
     # round 2: exact complex numbers, rationals in radix r, exact <-> inexact on binary64 bit patterns
-    cases += gen_complex(ctx, rng, 500 if not ctx.thorough else 12000)
-    cases += gen_radix_q(ctx, rng, exe, lat, 250 if not ctx.thorough else 6000)
+    cases += gen_complex(ctx, rng, 500 if not ctx.thorough else 6000)
+    cases += gen_radix_q(ctx, rng, exe, lat, 250 if not ctx.thorough else 3000)
     if os.path.exists(os.path.join(os.path.dirname(__file__), "..", "coq", "C04", "SpecFloat.v")):
         cases += gen_conv(ctx, rng, exe)
     so = ctx.run_model(exe, [c[2] for c in cases])
@@ -430,7 +432,7 @@ def run(ctx):
         byop[sig.split(":")[0]] = byop.get(sig.split(":")[0], 0) + 1
         if i == "SKIPPED":
             continue
-        ok, why = (_agree_cpx(sp, i) if sig.startswith("cpx:") else _agree_qradix(sp, i) if sig == "qradix:number->string" else _agree(sp, i))
+        ok, why = (_agree_cpx(sp, i) if sig.startswith("cpx:") else _agree_qradix(sp, i) if sig.startswith("qradix:number->string") else _agree(sp, i))
         if not ok:
             ctx.violation(sig, input=e, expected=sp, observed=i, why=why,
                           replay="echo '(import (scheme base) (scheme write) (scheme inexact)) (call-with-values (lambda () %s) (lambda r (write r)))' > /tmp/c04-replay.scm; LD_LIBRARY_PATH=%s CHIBI_MODULE_PATH=%s/lib CHIBI_IGNORE_SYSTEM_PATH=1 %s/chibi-scheme /tmp/c04-replay.scm" % (e.replace("'", "'\\''"), d, d, d))
@@ -452,14 +454,23 @@ def run(ctx):
             ctx.broken("correspondence:model-vs-spec:" + rq.split()[0], "%s: model %s, spec %s" % (rq[:300], m[:300], sp[:300]))
     ctx.sample(dict(kind="outer", expr=cases[0][1], spec=so[0], impl=io[0]))
     ctx.sample(dict(kind="outer", expr=cases[-1][1], spec=so[-1], impl=io[-1]))
-    ctx.assume("flonum arithmetic, transcendental functions and complex numbers are outside this check")
+    ctx.assume("flonum arithmetic, transcendental functions, and expt / exp / make-polar ... of exact complex numbers (computed through flonums) are "
+               "outside this check; exact complex numbers are covered for + - * / = only (Gaussian rationals)")
+    ctx.assume("exact<->inexact: a Scheme flonum with given binary64 bits is built from a fixnum below 2^53 and two multiplications by powers "
+               "of two (each exactly representable, hence exact under IEEE-754); the bit-level decoding is the Coq spec SpecFloat")
+    ctx.assume("string->number of complex numbers in a radix other than 10 is not supported by chibi ((string->number \"1/10+11/100i\" 2) => #f) "
+               "and is not part of the claim; radix 17-36 for string->number likewise (R7RS requires 2, 8, 10, 16)")
     ctx.assume("expt on two fixnums with a result below 2^62/1000 goes through libm pow() and round() (eval.c:1860-1873): covered by the outer correspondence only")
     ctx.trust("gcd / lcm / modulo / floor/ / truncate/ / exact-integer-sqrt wrappers (Scheme code in init-7.scm, eval.c), number->string for "
-              "radix != 10 (Scheme loop over quotient/remainder), printing of fixnums and exact<->inexact conversion are tied to the Z/Q spec by "
-              "the outer correspondence only (no model); string->number is compared for radix <= 16 only (R7RS: 2, 8, 10, 16)")
+              "radix != 10 (Scheme loop over quotient/remainder) and printing of fixnums are tied to the Z/Q spec by "
+              "the outer correspondence only (no model); string->number is compared for radix <= 16 only (R7RS: 2, 8, 10, 16); the models of the "
+              "generic dispatch over exact reals / complex numbers (Model7) and of sexp_inexact_to_exact (Model8) are tied to the spec on the run's "
+              "inputs (model-vs-spec) and the implementation to the same spec (K-outer), not word for word")
     ctx.assume("termination of the ratio add/sub/mul/div/compare/rounding wrappers and any bound on the number of rounds of quot_rem / "
                "Karatsuba / Newton are not proved (existence of a fuel is, for quot_rem, Karatsuba, expt, Euclid, ratio_normalize, sqrt)")
-    ctx.note("absence of operand mutation is checked (operand snapshots in the inner harness, operands re-compared in every outer case), not proved")
+    ctx.note("absence of operand mutation: proved for the store-passing model Store.v of sexp_add/sub/mul/quotient/remainder/div on fixnum|bignum "
+             "(operands_unchanged); the model is tied to the value-level models by the store_refines_value theorems; for ratio / complex operations "
+             "it is checked (operand snapshots in the inner harness, operands re-compared in every outer case), not proved")
 
 DIG = "0123456789abcdefghijklmnopqrstuvwxyz"
 # factor pairs whose product lands exactly on / next to the fixnum limits (the overflow test of the fast paths)
@@ -701,8 +712,20 @@ def _model_agrees(m, sp):
 
 
 def radix_digits(spec_line):
+    """text of a spec_radix / spec_radix_q / spec_radix_c result: sign, digits, -1 = '/', -2 = start of the imaginary part"""
     vals = [_z(x) for x in spec_line[2:].split(",")]
-    return ("-" if vals[0] < 0 else "") + "".join("/" if v < 0 else DIG[v] for v in vals[1:])
+    parts, cur = [], []
+    for v in vals:
+        if v == -2:
+            parts.append(cur)
+            cur = []
+        else:
+            cur.append(v)
+    parts.append(cur)
+    txt = [("-" if p_[0] < 0 else "") + "".join("/" if v < 0 else DIG[v] for v in p_[1:]) for p_ in parts]
+    if len(txt) == 1:
+        return txt[0]
+    return txt[0] + ("" if txt[1].startswith("-") else "+") + txt[1] + "i"
 
 
 def gen_radix_q(ctx, rng, exe, lat, n):
@@ -734,6 +757,12 @@ def gen_radix_q(ctx, rng, exe, lat, n):
         nt = max(abs(nn), abs(dd)) > FIXMAX
         cases.append(("qradix:number->string", "(number->string (/ %s %s) %d)" % (scm.hexlit(nn), scm.hexlit(dd), r),
                       "spec_radix_q %x %s %s" % (r, zhex(nn), zhex(dd)), ("qn2s", r, nn, dd), nt))
+        if rng.random() < 0.25:      # exact complex numbers: both parts in radix r, the sign of the imaginary part written once
+            n2, d2 = rng.choice(pool) or 1, abs(rng.choice(pool)) or 3
+            if rng.random() < 0.5:
+                n2 = -abs(n2)
+            cases.append(("qradix:number->string:complex", "(number->string (make-rectangular (/ %s %s) (/ %s %s)) %d)" % (scm.hexlit(nn), scm.hexlit(dd), scm.hexlit(n2), scm.hexlit(d2), r),
+                          "spec_radix_c %x %s %s %s %s" % (r, zhex(nn), zhex(dd), zhex(n2), zhex(d2)), ("qn2sc", r, nn, dd, n2, d2), True))
         if r not in (2, 8, 10, 16):
             continue
         txt = tn + "/" + td
@@ -756,6 +785,8 @@ def gen_radix_q(ctx, rng, exe, lat, n):
 def _agree_qradix(spec, impl):
     if impl is None or impl.startswith(("ERR", "CRASH", "TIMEOUT")):
         return False, "error where a value is defined"
+    if impl.endswith(('+i"', '-i"')):        # the decimal printer abbreviates an imaginary part of +-1 (R7RS syntax "+i" / "-i")
+        impl = impl[:-2] + '1i"'
     return impl == '"%s"' % radix_digits(spec), "text of the ratio in this radix"
 
 
@@ -797,8 +828,9 @@ def conv_bits(rng, thorough):
         for nb in (b - 1, b, b + 1):
             if 0 < nb < 0x7FF0000000000000:
                 out.add(nb)
-                out.add(nb | (1 << 63))
-    for _ in range(150 if not thorough else 3000):
+                if nb == b or not thorough:
+                    out.add(nb | (1 << 63))
+    for _ in range(150 if not thorough else 1500):
         e = rng.choice([0, 1, 2, 1022, 1023, 1023 + 52, 1023 + 53, 1023 + 61, 1023 + 62, 1023 + 63, 1023 + 64, 2046, rng.randrange(0, 2047)])
         f = rng.choice([0, 1, (1 << 52) - 1, 1 << 51, rng.getrandbits(52), rng.getrandbits(52) & ~((1 << rng.randrange(0, 52)) - 1)])
         out.add((rng.getrandbits(1) << 63) | (e << 52) | f)
